@@ -31,11 +31,11 @@ REGISTRY["C19"] = dict(
     cases=P.cases_C19, projection=proj_physical, oracles=[P.o_spec, P.o_no_defect_panic, P.o_ledger],
 )
 
-REGISTRY["C03"] = dict(level="proof", theorems=[], cases=P.cases_C03, projection=proj_behaviour,
+REGISTRY["C03"] = dict(level="proof", theorems=T("C03", "C03_push_back", "C03_push_front", "C03_pop_back", "C03_pop_front", "C03_remove", "C03_truncate_back", "C03_truncate_front", "C03_push_many", "C03_drain", "C03_consequences", "C03_final_drop"), cases=P.cases_C03, projection=proj_behaviour,
                        oracles=[P.o_spec, P.o_leak, P.o_no_defect_panic])
-REGISTRY["C04"] = dict(level="proof", theorems=[], cases=P.cases_C04, projection=proj_physical,
+REGISTRY["C04"] = dict(level="proof", theorems=T("C04", "C04_indep", "C04_push_back", "C04_push_front", "C04_pop_back", "C04_pop_front", "C04_remove", "C04_swap_remove_back", "C04_eq"), cases=P.cases_C04, projection=proj_physical,
                        oracles=[P.o_spec, P.o_ledger, P.o_views, P.o_no_defect_panic])
-REGISTRY["C05"] = dict(level="proof", theorems=[], cases=P.cases_C05, projection=proj_behaviour,
+REGISTRY["C05"] = dict(level="proof", theorems=T("C05", "C05_drop_range", "C05_truncate_back", "C05_truncate_front", "C05_clear", "C05_drain_drop"), cases=P.cases_C05, projection=proj_behaviour,
                        oracles=[P.o_ledger, P.o_views, P.o_no_defect_panic])
 REGISTRY["C06"] = dict(level="proof", theorems=[], cases=P.cases_C06, projection=proj_behaviour,
                        oracles=[P.o_leak, P.o_views, P.o_no_defect_panic])
